@@ -22,7 +22,9 @@ def do_replay(path):
     print(json.dumps({k: v for k, v in r.items() if k not in ("overrides",)}, indent=1)[:3000])
     mod = load_spec(r["property"])
     if hasattr(mod, "replay"):
-        return mod.replay(r)
+        rc = mod.replay(r)
+        if rc is not None:
+            return rc
     if "cx" in r:
         from vf import cengine
         cengine.build()
